@@ -471,8 +471,7 @@ theorem c17_model_checks_steps_partial (fuel : Nat) (xs : List V) (tail : Option
 
 /-- builder purity in the checker's form: a model run of the prefix spec before and after
     deriving from it, and of the derived spec against the freshly built one, is the same run -/
-theorem c17_model_checks_reuse (o o' : TakeObs) :
-    checkReuse true o o o' o' (some o') = true ∧ checkReuse true o o o' o' none = true := by
+theorem c17_model_checks_reuse (o o' : TakeObs) : checkReuse true o o o' o' = true := by
   have hr : ∀ t : TakeObs, (t == t) = true := fun t => by
     show (t.items == t.items && t.fin == t.fin && t.pulls == t.pulls) = true
     simp
